@@ -16,83 +16,15 @@ TRUSTED = ["CPython ast", "spec/classes.py", "sa/nf.py arithmetic"]
 ASSUMPTIONS = ["validity on real coordinate projections is mathematics, not decided", "unrolling bound: d <= 4 blocks (the loop structure does not depend on d)"]
 
 
-class _BlockInterp(Evaluator):
-    def __init__(self, d):
-        super().__init__({})
-        self.d = d
-        self.fresh_n = 0
-
-    def name(self, node):
-        if node.id == "null_point":
-            return PointV()
-        raise AnalysisError("unbound name %s in get_block" % node.id)
-
-    def attribute(self, node):
-        if dotted(node) == "self.d":
-            return Rat(self.d)
-        raise AnalysisError("attribute %s in get_block" % src(node))
-
-    def call(self, node):
-        nm = call_name(node)
-        if isinstance(node.func, ast.Name) and nm == "Point":
-            a = get_arg(node, 0, "is_leaf")
-            if a is None or is_const(a, True):
-                self.fresh_n += 1
-                return PointV.atom("blk%d" % self.fresh_n)
-            dd = get_arg(node, 1, "decomposition_dict")
-            if isinstance(dd, ast.Call) and call_name(dd) == "dict" or isinstance(dd, ast.Dict) and not dd.keys:
-                return PointV()
-        if isinstance(node.func, ast.Name) and nm == "list" and not node.args:
-            return Opaque("list", [])
-        if nm == "get_nb_blocks":
-            return Rat(self.d)
-        raise AnalysisError("call %s in get_block" % src(node))
-
-    def ev_List(self, node):
-        return Opaque("list", [self.ev(e) for e in node.elts])
-
-    def ev_BinOp(self, node):
-        if isinstance(node.op, ast.Add):
-            a, b = self.ev(node.left), self.ev(node.right)
-            if isinstance(a, Opaque) and isinstance(b, Opaque) and a.tag == "list" and b.tag == "list":
-                return Opaque("list", list(a.payload) + list(b.payload))
-            from ..nf import v_add
-            return v_add(a, b)
-        return super().ev_BinOp(node)
 
 
-def _run_block_body(stmts, it):
-    for s in stmts:
-        if isinstance(s, ast.Assign) and len(s.targets) == 1 and isinstance(s.targets[0], ast.Name):
-            it.env[s.targets[0].id] = it.ev(s.value)
-        elif isinstance(s, ast.AugAssign) and isinstance(s.target, ast.Name) and isinstance(s.op, (ast.Add, ast.Sub)):
-            cur = it.env[s.target.id]
-            v = it.ev(s.value)
-            it.env[s.target.id] = cur + v if isinstance(s.op, ast.Add) else cur - v
-        elif isinstance(s, ast.For) and isinstance(s.iter, ast.Call) and call_name(s.iter) == "range" and isinstance(s.target, ast.Name):
-            args = [it.ev(a) for a in s.iter.args]
-            if not all(isinstance(a, Rat) and a.is_number() for a in args):
-                raise AnalysisError("range bounds %s" % src(s.iter))
-            ints = [int(a.number()) for a in args]
-            for i in range(*ints):
-                it.env[s.target.id] = Rat(i)
-                _run_block_body(s.body, it)
-        elif isinstance(s, ast.Expr) and isinstance(s.value, ast.Call) and call_name(s.value) == "append" and isinstance(s.value.func.value, ast.Name):
-            lst = it.env[s.value.func.value.id]
-            lst.payload.append(it.ev(s.value.args[0]))
-        elif isinstance(s, ast.Assign) and isinstance(s.targets[0], ast.Subscript) and dotted(s.targets[0].value) == "self.blocks_dict":
-            try:
-                it.stored = it.ev(s.value)
-            except (AnalysisError, SortError):
-                it.stored = None
-            it.stored_key = src(s.targets[0].slice)
-        elif isinstance(s, ast.Assert):
-            continue
-        else:
-            raise AnalysisError("statement `%s` of get_block outside the analysed fragment" % norm_stmt(s)[:60])
 
 
 def r_blocks(ctx):
+    """get_block as a program (sa/miniint.py), for d = 1..4 blocks: asking the d blocks of a point creates exactly d - 1 new leaf points, the blocks
+    are distinct and sum back to the point (d = 1: the point itself); asking again returns the very same objects and creates nothing; another
+    point (a combination just as well as a leaf: the table is keyed by object identity) gets its own blocks, which sum back to it."""
+    from ..miniint import IndexInterp, VecObj
     repo = ctx.repo
     bp = repo.cls("BlockPartition")
     fn = bp.methods.get("get_block")
@@ -101,57 +33,68 @@ def r_blocks(ctx):
     ctx.unit("BlockPartition.get_block")
     ps = params_of(fn)
     point, blk = ps[1], ps[2]
-    guards = [s for s in fn.body if isinstance(s, ast.If)]
-    memo = None
-    for g in guards:
-        t = g.test
-        if isinstance(t, ast.Compare) and isinstance(t.ops[0], ast.NotIn) and dotted(t.left) == point:
-            base = t.comparators[0]
-            base = base.func.value if isinstance(base, ast.Call) and call_name(base) == "keys" else base
-            if dotted(base) == "self.blocks_dict":
-                memo = g
-    ctx.ob("R-MEMOBLK", "BlockPartition.get_block::memo guard", memo is not None,
-           "blocks are built only when the point is not yet a key of blocks_dict" if memo is not None else "no `if point not in self.blocks_dict` guard", loc(fn, fn))
-    if memo is None:
-        return
-    creations = [c for c in ast.walk(fn) if isinstance(c, ast.Call) and isinstance(c.func, ast.Name) and c.func.id == "Point"]
-    outside = [c for c in creations if not any(n is c for n in ast.walk(memo))]
-    ctx.ob("R-MEMOBLK", "BlockPartition.get_block::creation under the guard", not outside and not memo.orelse,
-           "every new point is created under the guard" if not outside else "points are created outside the memo guard (line %s): asking again gives other blocks" % [c.lineno for c in outside], loc(fn, memo))
-    rets = [r for r in ast.walk(fn) if isinstance(r, ast.Return)]
-    okr = len(rets) >= 1 and all(src(r.value).replace(" ", "") == "self.blocks_dict[%s][%s]" % (point, blk) for r in rets)
-    ctx.ob("R-MEMOBLK", "BlockPartition.get_block::returns the stored block", okr,
-           "every return reads the stored list at the requested block" if okr else "returns %s" % [src(r.value) for r in rets], loc(fn, fn))
-    rng = [a for a in fn.body if isinstance(a, ast.Assert)]
-    okb = any(src(a.test).replace(" ", "") in ("0<=%s<=self.d-1" % blk, "0<=%s<self.d" % blk) for a in rng)
-    ctx.ob("R-MEMOBLK", "BlockPartition.get_block::block range", okb, "block numbers 0..d-1 are accepted" if okb else "the admissible range of block numbers is not asserted as 0..d-1", loc(fn, fn))
-    # bounded unrolling
     for d in (1, 2, 3, 4):
-        it = _BlockInterp(d)
-        it.env[point] = PointV.atom("p")
-        it.stored = None
-        it.stored_key = None
+        created = []
+
+        def on_call(node, it, created=created):
+            nm = call_name(node)
+            if isinstance(node.func, ast.Name) and nm == "Point":
+                a0 = get_arg(node, 0, "is_leaf")
+                if a0 is None or is_const(a0, True):
+                    o = VecObj("Point", PointV.atom("blk%d" % (len(created) + 1)))
+                    created.append(o)
+                    return o
+                dd = get_arg(node, 1, "decomposition_dict")
+                if dd is not None and (isinstance(dd, ast.Dict) and not dd.keys or isinstance(dd, ast.Call) and call_name(dd) == "dict" and not dd.args):
+                    return VecObj("Point", PointV())
+            if nm == "get_nb_blocks":
+                return d
+            if nm == "isinstance":
+                return True
+            return NotImplemented
+        state = {"self.d": d, "self.blocks_dict": {}, "null_point": VecObj("Point", PointV())}
+        p_obj = VecObj("Point", PointV.atom("p"))
+        q_obj = VecObj("Point", PointV.atom("q1") + PointV.atom("q2"))      # a combination: two points may well have equal counters (None)
+
+        def ask(pt, k):
+            env = dict(state)
+            env[point], env[blk] = pt, k
+            it = IndexInterp(env, on_call=on_call)
+            r = it.run(fn.body)
+            for key0 in ("self.blocks_dict",):
+                state[key0] = it.env[key0]
+            return r
+        msg = None
         try:
-            _run_block_body(memo.body, it)
-        except (AnalysisError, SortError) as e:
-            ctx.ob("R-SUMBACK", "BlockPartition.get_block::d=%d" % d, False, "not interpretable: %s" % e, loc(fn, memo))
-            continue
-        st = it.stored
-        ok = isinstance(st, Opaque) and st.tag == "list" and len(st.payload) == d and it.fresh_n == d - 1 and it.stored_key == point
-        msg = ""
-        if ok:
-            tot = PointV()
-            for b in st.payload:
-                tot = tot + b
-            ok = tot.equals(PointV.atom("p"))
-            distinct = len({str(b) for b in st.payload}) == d
-            ok = ok and distinct
-            msg = "%d blocks, %d fresh leaves, blocks sum to the point" % (d, d - 1) if ok else "the %d stored blocks sum to `%s`, not to the point" % (d, tot)
-        else:
-            msg = "stores %s under key %s with %d fresh leaves (expected a list of %d blocks under the point, %d fresh leaves)" % (
-                "%d blocks" % len(st.payload) if isinstance(st, Opaque) else st, it.stored_key, it.fresh_n, d, d - 1)
-        ctx.ob("R-SUMBACK", "BlockPartition.get_block::d=%d" % d, ok, msg, loc(fn, memo))
-        ctx.sample({"rule": "R-SUMBACK", "d": d, "blocks": [str(b) for b in st.payload] if isinstance(st, Opaque) else None})
+            first = [ask(p_obj, k) for k in range(d)]
+            n1 = len(created)
+            again = [ask(p_obj, k) for k in range(d)]
+            n2 = len(created)
+            other = [ask(q_obj, k) for k in range(d)]
+            n3 = len(created)
+            if not all(isinstance(b0, VecObj) for b0 in first + again + other):
+                msg = "get_block returns %r" % ([b0 for b0 in first + again + other if not isinstance(b0, VecObj)][:1],)
+            elif n1 != d - 1:
+                msg = "decomposing a point into %d blocks creates %d new leaf points (expected %d)" % (d, n1, d - 1)
+            elif n2 != n1 or any(x is not y for x, y in zip(first, again)):
+                msg = "asking the blocks of the same point again %s" % ("creates %d more leaf points" % (n2 - n1) if n2 != n1 else "returns other objects")
+            else:
+                tot = PointV()
+                for b0 in first:
+                    tot = tot + b0.val
+                tq = PointV()
+                for b0 in other:
+                    tq = tq + b0.val
+                if not tot.equals(p_obj.val):
+                    msg = "the %d blocks of p sum to `%s`, not to p" % (d, tot)
+                elif len({id(b0) for b0 in first}) != d:
+                    msg = "two block numbers of the same point share one object"
+                elif n3 - n2 != d - 1 or not tq.equals(q_obj.val) or any(x is y for x in first for y in other if d > 1):
+                    msg = "a second decomposed point (a combination) gets blocks that sum to `%s` instead of to itself (%d new leaves): the table confuses two points" % (tq, n3 - n2)
+        except AnalysisError as e:
+            msg = "get_block not interpretable: %s" % e
+        ctx.ob("R-SUMBACK", "BlockPartition.get_block::d=%d" % d, msg is None,
+               "%d blocks, %d fresh leaves, blocks sum to the point, same objects when asked again, own blocks per point" % (d, d - 1) if msg is None else msg, loc(fn, fn))
 
 
 def r_ortho(ctx):
